@@ -17,6 +17,8 @@ import DarsiaProofs.CscGeneral
 import DarsiaProofs.SaddleBridge
 import DarsiaProofs.SolverCache
 import DarsiaProps.C06
+import DarsiaProps.C07
+import DarsiaProofs.FV
 import DarsiaGen.Dispatch
 namespace Darsia.C08
 open Darsia Darsia.Saddle
@@ -50,8 +52,8 @@ theorem full_iff_pinned {w : F → K} (hw : ∀ e, w e ≠ 0) {D : C → F → K
 /-- **uniqueness**: positive flux weights (ordered field) and a connected grid (`KerDTConst`: the kernel of `Dᵀ` are the
 constant cell fields) ⇒ the full block system has at most one solution. Together with the equivalences above: all
 formulations return THE same flux, pressure and multiplier, not merely members of the same solution set.
-(`KerDTConst` for the finite-volume divergence follows from C06 `div_column` — `(Dᵀp)_f = area·(p_lo − p_hi)` — and the
-connectedness of the cell graph of a box; the latter is not formalised here: explicit hypothesis.) -/
+(`KerDTConst` is DERIVED for the finite-volume divergence of every tensor grid below: `fv_kerDT_const`,
+`fv_full_system_unique`.) -/
 theorem full_system_unique {K : Type*} [Field K] [LinearOrder K] [IsStrictOrderedRing K] {F C : Type*} [Fintype F]
     [Fintype C] [DecidableEq C] {w : F → K} (hw : ∀ e, 0 < w e) {D : C → F → K} (hker : KerDTConst D) {k : C}
     {g : F → K} {f : C → K} {r : K} {u u' : F → K} {p p' : C → K} {lam lam' : K}
@@ -185,6 +187,98 @@ example : ∀ form ∈ [Saddle.Form.full, .fluxReduced, .pressure],
     Saddle.linearSolve form (Saddle.assembleFull #[2] (fvDiv [2] [1]) 1) (Saddle.assembleFull #[2] (fvDiv [2] [1]) 1)
       #[0, 1, -1, 0] 1 1 none = .ok #[1, 2, 0, 0] := by decide +kernel
 
+/-! ### uniqueness on finite-volume grids: `KerDTConst` derived, not assumed -/
+
+/-- index bookkeeping: the all-zero multi-index is cell 0 -/
+theorem encF_zero_of_all_zero : ∀ (shape idx : List Nat), (∀ a, idx.getD a 0 = 0) → encF shape idx = 0
+  | [], _, _ => by simp [encF]
+  | _ :: _, [], _ => by simp [encF]
+  | n :: ns, i :: is, h => by
+    have h0 : i = 0 := by simpa using h 0
+    have ht : ∀ a, is.getD a 0 = 0 := fun a => by simpa using h (a + 1)
+    simp [encF, h0, encF_zero_of_all_zero ns is ht]
+
+
+/-- **the cell graph of a box is connected** (from C07 `rev_conn_inverse`, `conn_neighbors`: every cell other than cell 0 has a
+lower neighbour with a smaller number): a cell field taking equal values on the two cells of every face is constant -/
+theorem cell_graph_connected (shape : List Nat) (p : Nat → Rat)
+    (hface : ∀ f, f < numFaces shape → p (conn shape f).1 = p (conn shape f).2) :
+    ∀ c, c < numCells shape → p c = p 0 := by
+  intro c
+  induction c using Nat.strong_induction_on with
+  | _ c ih =>
+    intro hc
+    by_cases h0 : c = 0
+    · rw [h0]
+    · have hex : ∃ a, a < shape.length ∧ 1 ≤ (decF shape c).getD a 0 := by
+        by_contra hcon
+        have hall : ∀ a, (decF shape c).getD a 0 = 0 := by
+          intro a
+          by_cases ha : a < shape.length
+          · by_contra hne
+            exact hcon ⟨a, ha, by omega⟩
+          · have hl := inBox_length shape _ (decF_inBox shape c hc)
+            rw [List.getD_eq_getElem?_getD, List.getElem?_eq_none (by omega)]; rfl
+        have := encF_zero_of_all_zero shape _ hall
+        rw [encF_decF shape c hc] at this
+        exact h0 this
+      obtain ⟨a, ha, hpos⟩ := hex
+      have hrev : rev shape a c 0 = ((faceNum shape a (unbump (decF shape c) a) : Nat) : Int) := by
+        simp only [rev, if_true, hpos]
+      obtain ⟨hf, hax, hc2⟩ := ((C07.rev_conn_inverse shape a c _ ha hc).2).1 hrev
+      obtain ⟨_, hl1, _, hstr, hlt, _⟩ := C07.conn_neighbors shape _ hf
+      have heq := hface _ hf
+      rw [hc2] at heq hlt
+      rw [← heq]
+      exact ih _ hlt hl1
+
+
+open Darsia.SaddleBridge Darsia.Saddle in
+/-- **`KerDTConst` for the finite-volume divergence of every tensor grid** with non-degenerate face areas: from C06
+`div_column` (`(Dᵀp)_f = area·(p_lo − p_hi)`) and the connectedness of the cell graph (C07 `rev_conn_inverse`,
+`conn_neighbors`: every cell other than cell 0 has a lower neighbour with a smaller number) -/
+theorem fv_kerDT_const (shape : List Nat) (h : List Rat) (w : Vec) (hw : w.size = numFaces shape)
+    (harea : ∀ f, f < numFaces shape → area h (faceAxis shape f) ≠ 0) :
+    KerDTConst (DF w (fvDiv shape h)) := by
+  intro p hz
+  have hsz := fvDiv_size shape h
+  -- extend `p` to all naturals
+  let P : Nat → ℚ := fun c => if hc : c < (fvDiv shape h).size then p ⟨c, hc⟩ else 0
+  have hP : ∀ c : Fin (fvDiv shape h).size, P c.val = p c := fun c => by simp [P, c.isLt]
+  have hface : ∀ f, f < numFaces shape → P (conn shape f).1 = P (conn shape f).2 := by
+    intro f hf
+    have hzf := hz ⟨f, by omega⟩
+    unfold Saddle.divT at hzf
+    have e1 : (∑ c : Fin (fvDiv shape h).size, DF w (fvDiv shape h) c ⟨f, by omega⟩ * p c)
+        = sumTo (numCells shape) (fun c => P c * divEntry shape h c f) := by
+      rw [← hsz, sumTo_eq_sum]
+      apply Finset.sum_congr rfl
+      intro c _
+      simp only [DF]
+      rw [fvDiv_get shape h c.val f (by have := c.isLt; omega) hf, hP c]
+      ring
+    rw [e1, div_column shape h P f hf] at hzf
+    have := harea f hf
+    have hsub : P (conn shape f).1 - P (conn shape f).2 = 0 := by
+      rcases mul_eq_zero.1 hzf with h0 | h0
+      · exact absurd h0 this
+      · exact h0
+    linarith
+  have hconst := cell_graph_connected shape P hface
+  intro c c'
+  rw [← hP c, ← hP c', hconst c.val (by have := c.isLt; omega), hconst c'.val (by have := c'.isLt; omega)]
+
+open Darsia.SaddleBridge in
+/-- hence, on EVERY tensor grid with non-degenerate face areas and for positive face weights, the full block system built on
+the finite-volume divergence has at most one solution: all formulations return THE same flux, pressure and multiplier -/
+theorem fv_full_system_unique (shape : List Nat) (h : List Rat) (w : Saddle.Vec) (hw : w.size = numFaces shape)
+    (harea : ∀ f, f < numFaces shape → area h (faceAxis shape f) ≠ 0) (hpos : ∀ e : Fin w.size, 0 < wF w e)
+    (k : Fin (fvDiv shape h).size) {g : Fin w.size → ℚ} {f : Fin (fvDiv shape h).size → ℚ} {r : ℚ}
+    {u u' : Fin w.size → ℚ} {p p' : Fin (fvDiv shape h).size → ℚ} {lam lam' : ℚ}
+    (h1 : Saddle.Full (wF w) (DF w (fvDiv shape h)) k g f r u p lam)
+    (h2 : Saddle.Full (wF w) (DF w (fvDiv shape h)) k g f r u' p' lam') : u = u' ∧ p = p' ∧ lam = lam' :=
+  Saddle.full_unique hpos (fv_kerDT_const shape h w hw harea) h1 h2
+
 /-! ### dispatch (generated acceptance matrix; `decide` over a table re-tabulated from the running code = an exhaustive
 observation of the dispatch on a 2×2 grid in Lean form, not a theorem about the source) -/
 
@@ -212,7 +306,8 @@ theorem accepted_spellings_handled :
     ∀ f ∈ Gen.Formulation.all, ∀ b ∈ Gen.Backend.all, Gen.construct f b = .ok () →
       Gen.accept f b = .ok () ∨ Gen.accept f b = .error .assertion ∨ b = .ksp := by decide
 
-/-- unknown option values are refused at construction -/
+/-- bookkeeping of the generated vocabulary (definitional: both lists are emitted from the same extraction): every back-end
+name the constructor's assert accepts is one of the documented ones -/
 theorem documented_backends_complete :
     ∀ b ∈ Gen.Backend.all, b ∈ Gen.documentedBackends := by decide
 
